@@ -4,6 +4,7 @@ import (
 	"context"
 	"encoding/json"
 	"fmt"
+	"runtime"
 	"runtime/debug"
 	"strings"
 	"testing/synctest"
@@ -27,6 +28,14 @@ func runBubble(out *Outcome, fn func()) {
 			}
 			out.Harness = fmt.Sprintf("bubble panic: %v\n%s", r, debug.Stack())
 		}
+	}()
+	// no garbage collection while the simulation runs: a collection preempts
+	// the running goroutine at a point that depends on real time
+	runtime.GC() // no collection may be in flight when the run starts
+	gcOld := debug.SetGCPercent(-1)
+	defer func() {
+		debug.SetGCPercent(gcOld)
+		runtime.GC()
 	}()
 	synctest.Test(theT, func(t *testing_T) {
 		defer func() {
